@@ -35,6 +35,7 @@ type Program struct {
 	// (including anonymous functions and methods), sorted by name.
 	Funcs  []*ssa.Function
 	byName map[string]*ssa.Function
+	looked map[*ssa.Function]bool
 	cgVTA  *callgraph.Graph
 	cgCHA  *callgraph.Graph
 	Sizes  types.Sizes
@@ -164,11 +165,36 @@ func ShortPkg(path string) string {
 }
 
 // Func looks a module function up by its FuncName; nil if absent.
-func (p *Program) Func(name string) *ssa.Function { return p.byName[name] }
+func (p *Program) Func(name string) *ssa.Function {
+	f := p.byName[name]
+	p.note(f)
+	return f
+}
+
+func (p *Program) note(f *ssa.Function) {
+	if f == nil {
+		return
+	}
+	if p.looked == nil {
+		p.looked = map[*ssa.Function]bool{}
+	}
+	p.looked[f] = true
+}
+
+// Looked returns the functions the rules looked up by name so far: the
+// anchors of the property being checked.
+func (p *Program) Looked() []*ssa.Function {
+	var out []*ssa.Function
+	for f := range p.looked {
+		out = append(out, f)
+	}
+	return out
+}
 
 // MustFunc is Func but records the lookup failure on the caller's behalf.
 func (p *Program) FuncOK(name string) (*ssa.Function, bool) {
 	f, ok := p.byName[name]
+	p.note(f)
 	return f, ok
 }
 
